@@ -195,7 +195,9 @@ Spec == Init /\ [][Next]_vars
 
 \* VIEW: lap counters relative to their minimum, stale reader cursors masked
 View == LET m == MinCyc(cycle, hcyc, n) IN
-        <<head, high, cycle - m, IF wmapped THEN mapped ELSE 0, accepting, n,
+        \* (`mapped` is kept even while no write is mapped: an unmap refused by accept_writes(0) leaves it stale, and the
+        \*  per-transition replay sets the implementation's field from it - a change that reads it there must meet it)
+        <<head, high, cycle - m, mapped, accepting, n,
           [i \in Readers |-> IF i <= n THEN hpos[i] ELSE 0], [i \in Readers |-> IF i <= n THEN hcyc[i] - m ELSE 0],
           rid, [r \in Readers |-> IF rstate[r] = "M" THEN rpos[r] ELSE 0],
           [r \in Readers |-> IF rid[r] > 0 /\ rstate[r] = "M" THEN rcyc[r] - m ELSE 0], rstate,
